@@ -415,6 +415,13 @@ pub fn run(run: &Run) {
     let f = move |c: &Case, o: &mut Obs| check(&tmp, c, o);
     run.run_replays::<Case>("rolls", &f);
     run.search("rolls", run.tier.pick(1_500, 60_000), strategy(), &f);
+    if run.worker.0 == 0 {
+        // one roller through 400 successive rolls (more than any 8-bit bookkeeping can count)
+        for (count, pattern) in [(3u32, "a.{}.log"), (5, "arch/{}/a.log.gz")] {
+            let rolls: Vec<Vec<u8>> = (0..400u32).map(|i| format!("roll {}\n", i).into_bytes()).collect();
+            run.eval_one("rolls", &Case { delete_roller: false, base: 1, count, pattern: pattern.to_string(), initial: vec![], bystanders: vec![("other.txt".into(), b"keep".to_vec())], bystander_dirs: vec![], active: "active.log".into(), rolls, cross_device: false, big: None, leftovers: false }, &f);
+        }
+    }
     run.note(format!("build: {}", if cfg!(feature = "bg") { "background_rotation" } else { "foreground rotation" }));
 }
 
